@@ -291,21 +291,7 @@ func checkC15(c *Check) {
 	c.Share("C03", []string{"R3", "R4"}, 3)
 	// the attempt is consumed before the hooks run: a `!Written()` test alone (accepted by C13 for the single
 	// status line) lets Recovery's own WriteHeader(500) run a hook again that has just panicked
-	{
-		n, bad := 0, 0
-		for _, fn := range p.Funcs() {
-			for _, ci := range callsIn(fn, func(nm string, cm *ssa.CallCommon) bool { return strings.HasSuffix(nm, "responseWriter).callBefore") }) {
-				n++
-				if _, isOnce := onceLiteral(fn); !isOnce {
-					bad++
-					c.Bad(p.FuncKey(fn)+":hooks-once", p.Pos(ci.Pos()), "the before-functions are not run under a sync.Once: when one of them panics no status has been recorded yet, so Recovery's WriteHeader(500) runs it again inside the deferred function and the second panic escapes ServeHTTP")
-				}
-			}
-		}
-		if n > 0 && bad == 0 {
-			c.OK("flamego.responseWriter:hooks-once", "response_writer.go", "the before-functions run inside a sync.Once.Do literal: a panicking hook is not retried", n)
-		}
-	}
+	checkHooksOnce(c)
 	c.Rule("R6", "E8 prove-pass oracle", "every index/slice operation in Recovery's handler, its deferred literal and its helper closures is proven by the compiler or is x[i+1:] with i = Index/LastIndex(x, …) on the i >= 0 edge: a panic raised after recover() would escape ServeHTTP", 1)
 	{
 		fns := withLits(rec)
@@ -450,4 +436,25 @@ func checkC15(c *Check) {
 	if len(hits) == 0 {
 		c.OK("REQ:no-process-exit", "request phase", "no os.Exit / Fatal / Goexit among the calls of the request-phase functions", len(reqList))
 	}
+}
+
+// checkHooksOnce: the attempt to send the first status is consumed before the hooks run (sync.Once), so a hook
+// runs at most once also when one of them panics (C13.R3, C15.R8).
+func checkHooksOnce(c *Check) {
+	p := c.P
+
+	n, bad := 0, 0
+	for _, fn := range p.Funcs() {
+		for _, ci := range callsIn(fn, func(nm string, cm *ssa.CallCommon) bool { return strings.HasSuffix(nm, "responseWriter).callBefore") }) {
+			n++
+			if _, isOnce := onceLiteral(fn); !isOnce {
+				bad++
+				c.Bad(p.FuncKey(fn)+":hooks-once", p.Pos(ci.Pos()), "the before-functions are not run under a sync.Once: when one of them panics no status has been recorded yet, so Recovery's WriteHeader(500) runs it again inside the deferred function and the second panic escapes ServeHTTP")
+			}
+		}
+	}
+	if n > 0 && bad == 0 {
+		c.OK("flamego.responseWriter:hooks-once", "response_writer.go", "the before-functions run inside a sync.Once.Do literal: a panicking hook is not retried", n)
+	}
+
 }
